@@ -307,6 +307,7 @@ static int mock_double(void) {
     return n;
 }
 static int g_drops[3];
+static int g_has_ctx = 0, g_late = 0;
 static int g_inst[3];
 static unsigned char g_buf[256];
 static struct S3 g_s3arr[8];
@@ -328,13 +329,15 @@ static void mock_arc_drop(const void *p) {
 static void mock_box_drop(void *p) {
     int id = (int)((int *)p - g_inst);
     if (id >= 0 && id < 3) g_drops[id]++;
+    /* the context (the handle that keeps the instance's code loaded) must still be alive when the instance is released */
+    if (g_has_ctx && g_arc.count <= 0) g_late++;
     printf("EV inst_drop inslot=%d id=%d\n", g_in_slot, id);
 }
 static bool mock_cb_s3(void *c, struct S3 v) { (void)c; (void)v; return true; }
 static bool mock_cb_u64(void *c, uint64_t v) { (void)c; (void)v; return true; }
 static uint64_t mock_fnptr(uint64_t v) { return v + 1; }
 static void mock_reset(void) {
-    g_in_slot = 0; g_drops[0] = g_drops[1] = g_drops[2] = 0; g_cur_cont = 0;
+    g_in_slot = 0; g_drops[0] = g_drops[1] = g_drops[2] = 0; g_cur_cont = 0; g_has_ctx = 0; g_late = 0;
     memset(g_arcs, 0, sizeof g_arcs); g_next_h = 1;
 }
 #if defined(__GNUC__)
@@ -564,13 +567,13 @@ def _obj_setup(info, lang):
         s.append("    obj.%s = &vt_%d_%s;" % (f, info["idx"], f))
     s += ["    " + x for x in _fill_container(info, "obj.container", 1, lang)]
     if info["ctx"] == "arc":
-        s.append("    g_arc.count = 1;")
+        s.append("    g_arc.count = 1; g_has_ctx = 1;")
     s.append("    g_cur_cont = (const void *)&obj.container;")
     return s
 
 
 def _end_line():
-    return '    printf("END count=%d d1=%d d2=%d under=%d dbl=%d\\n", g_arc.count, g_drops[1], g_drops[2], g_arc.under, mock_double());'
+    return '    printf("END count=%d d1=%d d2=%d under=%d dbl=%d late=%d\\n", g_arc.count, g_drops[1], g_drops[2], g_arc.under, mock_double(), g_late);'
 
 
 def _dtor_def(info, n, lang):
